@@ -22,6 +22,11 @@ R5  auxiliary clients: EndpointPresence.unregister_* removes only nodes whose
     content names its hostname [aux-deletes-other-hosts-node:*]; _unschedule
     removes /scheduled/<instance> only while /placement/<host>/<instance>
     exists [unschedule-without-placement].
+R5b a runtime that registers a container itself (EndpointPresence.register under
+    its own session) applies no set/delete to a presence node another session
+    owns [runtime-registration-(set|delete)s-foreign-node]; a terminal event
+    published through trace.app.zk.publish is under R5's _unschedule rule, also
+    when one request of the publish fails with a connection loss.
 R6  bounded progress, evaluated by the world at quiescence [stuck-request:*,
     no-quiescence-after-faults-stop].
 """
@@ -80,6 +85,20 @@ class Oracle:
         if actor[0] == 'svc':
             self._pre_service(task, client, actor, op, path, node, owner)
         elif actor[0] == 'aux':
+            if actor[2] == 'reg_runtime':
+                # a runtime registering a container under its own session: it creates its nodes; a node another
+                # session owns it neither changes nor deletes - it waits for it to go away
+                self._note('aux:%s:%s' % (actor[2], actor[1]), op, path, owner)
+                if op == 'create' and node is not None and owner not in (None, client.sid):
+                    self.count('runtime_registration_create_met_foreign_owner')
+                if op in ('set', 'delete', 'set_acls') and node is not None and owner not in (None, client.sid):
+                    self.report('runtime-registration-%ss-foreign-node' % ('delete' if op == 'delete' else 'set'),
+                                'a runtime on %s registering container %s under its own session %#x applies %s to %s, '
+                                'which session %#x owns (content %r)' % (
+                                    actor[1], actor[3], client.sid, op, path, owner, node.data.decode('latin1')),
+                                dict(path=path, op=op, acting_for=actor[1], owner=owner, issuer=client.sid,
+                                     data=node.data.decode('latin1')))
+                return
             if actor[2] == 'reg_identity':
                 # a runtime registering under its own session: it creates its node, it never rewrites or removes a
                 # node another session holds
